@@ -14,4 +14,15 @@ template suspend_point<bool> queue<Probe>::push<int, int>(int &&, int &&);  // W
 template future<void> limited_queue<Probe>::push<int, int>(int &&, int &&);  // WITNESS limited_queue::push: hand-over, enqueue and the blocked item build T(args...)
 static_assert(std::is_same_v<decltype(std::declval<limited_queue<int>&>().push(1)), future<void>>, "a bounded push hands out a future that completes when the item is admitted");
 static_assert(std::is_same_v<decltype(std::declval<limited_queue<int>&>().pop()), future<int>>, "pop hands out a future of the item");
+// each of the three container policies is used for what it is documented for (items, waiting pops, blocked producers): a bounded item
+// container chosen for the items must not be handed the blocked producers, whose number is not bounded by the limit
+template<typename X> struct QItems : primitives::std_queue<X> {};
+template<typename X> struct QWaiters : primitives::std_queue<X> {};
+template<typename X> struct QBlocked : primitives::std_queue<X> {};
+struct Peek : limited_queue<int, QItems, QWaiters, QBlocked> {
+    using items_t = decltype(_queue); using waiters_t = decltype(_awaiters); using blocked_t = decltype(_blocked);
+};
+static_assert(std::is_same_v<Peek::items_t, QItems<int>>, "items live in the Queue policy");
+static_assert(std::is_same_v<Peek::waiters_t, QWaiters<promise<int>>>, "waiting pops live in the CoroQueue policy");
+static_assert(std::is_same_v<Peek::blocked_t, QBlocked<std::pair<int, promise<void>>>>, "blocked producers (item + promise of the push) live in the BlockedQueue policy");
 int main() {}
